@@ -14,8 +14,13 @@ Property theorems only.  Structure of the argument:
   (locks in scope, dominating owner-thread checks, atomic operations); member declarations and
   `GUARDED_BY` annotations agree with the policy; every confined operation starts with the
   owner-thread assertion of its own loop; the property's lists are all present;
+* `policy_fields_exist`, `annotations_agree` — the hand-written policy (`Model/Race.lean`
+  `policies`: one line per member, justified there) has no stale entry and agrees with the code's
+  own `GUARDED_BY` annotations;
 * `row_event_discipline`, `table_race_free` — the bridge: an execution whose access events are
-  instances of table rows with *truthful* contexts respects the discipline, hence is race-free;
+  instances of table rows with *truthful* contexts respects the discipline, hence is race-free.
+  What "truthful" means is spelled out as the hypotheses `hlocks`, `hctx`, `hown`, `hpre` of
+  `row_event_discipline` (the conjuncts of `InstanceOfTable`);
 * `assert_aborts` — model of `assertInLoopThread()`: on a foreign thread a confined operation
   produces (at most debug-only reads and) an `abort` event and nothing of its body.
 
@@ -59,9 +64,17 @@ theorem lists_covered :
   decide +kernel
 
 /-- **one row, one event**: an event that is an instance of a (non-exempt, non-synchronisation)
-row of the generated table, in a context that is truthful — the thread holds the mutexes the row
-lists; a dominating owner check / the single-owner API / a confined operation that got past its
-assertion means the thread is the owner — obeys the trace-level discipline of its member. -/
+row of the generated table, in a context that is *truthful*, obeys the trace-level discipline of its
+member.  Truthful means, spelled out as hypotheses:
+* `hlocks` — the thread holds every mutex whose `MutexLockGuard` the row has in scope;
+* `hctx` — a dominating `assertInLoopThread()` / `isInLoopThread()` test of the class's own loop (or
+  a loop callback: channel, timer, queued functor) means the thread is the owner;
+* `hown` — the single-owner API is called by the owner;
+* `hpre` — a debug-only read inside `assert(...)` *ahead of* the owner assertion of a loop-confined
+  operation (`assert(!looping_)` in `loop()`, `assert(!started_)` in `EventLoopThreadPool::start`)
+  is covered for calls made on the owner thread only.  On a foreign thread that read is followed by
+  `abort` and by nothing else (`assert_aborts`); it is outside this theorem and named in the
+  plug-in's `level_note`. -/
 theorem row_event_discipline (r : Row) (hr : r ∈ rows) (cp : ClassPolicy) (p : Policy)
     (hcp : policyOfClass r.cls = some cp) (hp : lookup r.field cp.fields = some p)
     (hex : (r.rootKind == .other && (cp.setup.contains r.fn || cp.notThreadSafe.contains r.fn)) = false)
@@ -71,7 +84,7 @@ theorem row_event_discipline (r : Row) (hr : r ∈ rows) (cp : ClassPolicy) (p :
     (hlocks : ∀ m, r.locks.contains m = true → Holds tr t (mtx m) i)
     (hctx : (r.inLoop.any cp.ownerChecks.contains || r.rootKind == .handler) = true → t = owner)
     (hown : r.rootKind = .owner → t = owner)
-    (hconf : r.rootKind = .confined → t = owner) :
+    (hpre : r.inAssert = true → r.rootKind = .confined → t = owner) :
     DiscOk tr (p.disc mtx owner) i t e := by
   have hrow : rowOk r = true := List.all_eq_true.mp table_ok r hr
   unfold rowOk at hrow
@@ -80,7 +93,7 @@ theorem row_event_discipline (r : Row) (hr : r ∈ rows) (cp : ClassPolicy) (p :
   refine selfOk_discOk mtx owner hk hsync hlocks hctx (fun h => hown (by simpa using h)) ?_ hrow.1
   intro h
   simp only [Bool.and_eq_true, beq_iff_eq] at h
-  exact hconf h.1.2
+  exact hpre h.1.1.1 h.1.2
 
 /-- an access event of a trace is an instance of a table row with a truthful context -/
 def InstanceOfTable (tr : Trace) (pol : Loc → Disc) (i : Nat) (t : Tid) (e : Ev) (x : Loc) : Prop :=
@@ -91,7 +104,7 @@ def InstanceOfTable (tr : Trace) (pol : Loc → Disc) (i : Nat) (t : Tid) (e : E
     pol x = p.disc mtx owner ∧ kindMatches r.kind e ∧
     (∀ m, r.locks.contains m = true → Holds tr t (mtx m) i) ∧
     ((r.inLoop.any cp.ownerChecks.contains || r.rootKind == .handler) = true → t = owner) ∧
-    (r.rootKind = .owner → t = owner) ∧ (r.rootKind = .confined → t = owner)
+    (r.rootKind = .owner → t = owner) ∧ (r.inAssert = true → r.rootKind = .confined → t = owner)
 
 /-- **the table discipline gives race freedom**: in every execution with mutual exclusion in
 which each access is initialising or an instance of a row of the generated table with a truthful
@@ -139,6 +152,16 @@ theorem annotations_agree :
           | _ => false) = true := by
   decide +kernel
 
+
+/-- the policy has no stale entries: every member it names is a declared member of an analysed
+class (so a renamed or removed member cannot keep a policy nobody checks), and every class of the
+table has exactly the policy entry `policyOfClass` finds -/
+theorem policy_fields_exist :
+    policies.all (fun cp => cp.fields.all (fun (f, _) =>
+      fields.any (fun g => g.cls == cp.cls && g.name == f))) = true ∧
+    policies.all (fun cp => (policies.filter (fun cq => cq.cls == cp.cls)).length == 1) = true := by
+  decide +kernel
+
 /-! ### non-vacuity -/
 
 /-- a disciplined two-thread execution (constructor write published by `fork`, a member under a
@@ -172,5 +195,29 @@ example : rowOk {
 reads `looping_` in `assert(!looping_)`, then asserts, then runs -/
 example : runOp 1 2 ([Ev.rd 0].map Act.access ++ Act.assertOwner :: [Act.access (.wr 0), Act.access (.wr 1)])
     = [⟨2, .rd 0⟩, ⟨2, .abort⟩] := by decide
+
+/-- the bridge is not vacuous either: the generated table has a thread-safe row reading
+`EventLoop::pendingFunctors_` under `mutex_` (in `queueSize`), and the one-access execution
+`acq m; rd x; rel m` of a foreign thread is an instance of it with a truthful context, so
+`table_race_free` applies to it -/
+example : ∃ r ∈ rows, r.cls = "EventLoop" ∧ r.fn = "queueSize" ∧ r.field = "pendingFunctors_" ∧
+    InstanceOfTable [⟨5, .acq 0⟩, ⟨5, .rd 7⟩, ⟨5, .rel 0⟩] (fun _ => .guarded 0) 1 5 (.rd 7) 7 := by
+  have hfind : (rows.find? (fun r => r.cls == "EventLoop" && r.fn == "queueSize" && r.field == "pendingFunctors_"
+      && r.rootKind == .ts && r.kind == .rd && r.locks == ["mutex_"])).isSome = true := by decide +kernel
+  obtain ⟨r, hr⟩ := Option.isSome_iff_exists.mp hfind
+  have hmem := List.mem_of_find?_eq_some hr
+  have hp := List.find?_some hr
+  simp only [Bool.and_eq_true, beq_iff_eq] at hp
+  obtain ⟨⟨⟨⟨⟨hcls, hfn⟩, hfield⟩, hrk⟩, hkind⟩, hlocks⟩ := hp
+  refine ⟨r, hmem, hcls, hfn, hfield, r, hmem, (policies.find? (·.cls == "EventLoop")).get (by decide), .guarded "mutex_",
+    (fun _ => 0), 5, ?_, ?_, ?_, ?_, ?_, rfl, ?_, ?_, fun _ => rfl, fun _ => rfl, fun _ _ => rfl⟩
+  · simp [policyOfClass, hcls]
+  · rw [hfield]; decide
+  · rw [hrk]; rfl
+  · rw [hfield]; decide
+  · intro h; cases h
+  · rw [hkind]; exact ⟨7, rfl⟩
+  · intro m _
+    exact ⟨0, by omega, rfl, by intro k h1 h2; omega⟩
 
 end MuduoVerif.C08
